@@ -1,8 +1,282 @@
-//! C10 — generator and driver of the real API.
+//! C10 — Myers traceback and API agreement.
+//!
+//! `<ws> <wl> <new|bld> <pattern> <amb> <wild> <search>/<search>/…`
+//!     ws = word size of the single-word matcher (0: none), wl = word size of the block-based matcher (0: none);
+//!     both given: every search runs on both and the alignments must be identical.
+//!     One matcher object of each kind serves all searches of the line (history).
+//!     search = `E:<k>:<script digits>:<text>`  eager API (`find_all`); script: entry point used per hit
+//!                   (0 next, 1 next_end, 2 next_path, 3 next_path_reverse, 4 next_alignment, 9 drop the iterator)
+//!            | `L:<k>:<seed>:<text>`           lazy API (`find_all_lazy`), `*_at` queries interleaved at random
+//! observation per search:
+//!     `H=<start:end:dist:ops,…>;X=<…>;stop=<0|1>;q=<queries>;u=<unvisited probes>;api:same|api:differs:<what+…>`
+//!     H: one traceback per reported hit (end exclusive), X: tracebacks at visited ends that are not hits
+//!     (single-word version only).  Harness-side agreement (impl against impl): every accessor of the eager API,
+//!     every `*_at` repetition, `Alignment` fields, both against `find_all_end`, block-based against single-word,
+//!     `*_at` at a position not yet searched → `None`.
+use crate::c09::mu;
 use crate::util::*;
 
-pub fn gen(_tier: &str, _rng: &mut Rng, _out: &mut Vec<String>) {}
+fn show_hits(h: &[mu::Hit]) -> String {
+    if h.is_empty() {
+        "-".into()
+    } else {
+        h.iter().map(|x| x.show()).collect::<Vec<_>>().join(",")
+    }
+}
 
-pub fn exec(_toks: &[&str]) -> Result<String, String> {
-    Err("unimplemented".into())
+fn gen_case(rng: &mut Rng, out: &mut Vec<String>, i: usize) {
+    let w = mu::word_sizes()[i % 4];
+    // 0: single only, 1: block only, 2: both (same word), 3: both (single u64 when it fits)
+    let kind = (i / 4) % 4;
+    let alpha = mu::alphabet(rng);
+    let simple_involved = kind != 1;
+    let mut m = mu::pat_len(rng, w, simple_involved);
+    if !simple_involved && m > 70 && rng.chance(1, 2) {
+        m = w + 1 + rng.below(w.min(20) + 1);
+    }
+    let (ws, wl) = match kind {
+        0 => (w, 0),
+        1 => (0, w),
+        2 => (w, w),
+        _ => (64, w),
+    };
+    let m = if ws != 0 { m.min(ws) } else { m };
+    let p = mu::pattern(rng, &alpha, m);
+    let (amb, wild, mode) = match rng.below(4) {
+        0 => (vec![], vec![], "bld"),
+        1 => {
+            let (a, w) = mu::tables(rng, &alpha, &p);
+            (a, w, "bld")
+        }
+        _ => (vec![], vec![], "new"),
+    };
+    let mut extra: Vec<u8> = wild.clone();
+    for (_, e) in &amb {
+        extra.extend(e);
+    }
+    let ns = 1 + rng.below(4);
+    let mut ss = vec![];
+    for _ in 0..ns {
+        let mut k = mu::threshold(rng, m, true).min(m + 5);
+        if rng.chance(1, 10) {
+            k = 255;
+        }
+        let mut t = mu::text(rng, &alpha, &p, k);
+        if !extra.is_empty() {
+            for x in t.iter_mut() {
+                if rng.chance(1, 12) {
+                    *x = *rng.pick(&extra);
+                }
+            }
+        }
+        // keep the printed tracebacks small when (nearly) every position is a hit
+        if 2 * k >= m {
+            t.truncate((3000 / m).max(8));
+        }
+        if rng.chance(1, 2) {
+            let n = 1 + rng.below(6);
+            let mut script: String = (0..n).map(|_| char::from(b'0' + rng.below(5) as u8)).collect();
+            if rng.chance(1, 8) {
+                script.push('9');
+            }
+            ss.push(format!("E:{}:{}:{}", k, script, hex(&t)));
+        } else {
+            ss.push(format!("L:{}:{}:{}", k, rng.below(1 << 30), hex(&t)));
+        }
+    }
+    out.push(format!("{} {} {} {} {} {} {}", ws, wl, mode, hex(&p), mu::show_amb(&amb), hex(&wild), ss.join("/")));
+}
+
+fn enum_seqs(alpha: &[u8], maxlen: usize, minlen: usize) -> Vec<Vec<u8>> {
+    let mut out = vec![];
+    let mut cur: Vec<Vec<u8>> = vec![vec![]];
+    for l in 0..=maxlen {
+        if l >= minlen {
+            out.extend(cur.iter().cloned());
+        }
+        let mut nxt = vec![];
+        for s in &cur {
+            for &a in alpha {
+                let mut t = s.clone();
+                t.push(a);
+                nxt.push(t);
+            }
+        }
+        cur = nxt;
+    }
+    out
+}
+
+pub fn gen(tier: &str, rng: &mut Rng, out: &mut Vec<String>) {
+    let n = if tier == "thorough" { 40_000 } else { 2_400 };
+    for i in 0..n {
+        gen_case(rng, out, i);
+    }
+    if tier == "thorough" {
+        // exhaustive small scope: all p (1..=4), t (0..=7) over {a,b}, k 0..=4; u8 single + u8 blocks
+        let ps = enum_seqs(b"ab", 4, 1);
+        let ts = enum_seqs(b"ab", 7, 0);
+        for p in &ps {
+            for k in 0..=4usize {
+                for (ci, chunk) in ts.chunks(16).enumerate() {
+                    let ss: Vec<String> = chunk
+                        .iter()
+                        .enumerate()
+                        .map(|(j, t)| {
+                            if (ci + j) % 2 == 0 {
+                                format!("E:{}:{}:{}", k, (ci + j) % 5, hex(t))
+                            } else {
+                                format!("L:{}:{}:{}", k, ci * 16 + j, hex(t))
+                            }
+                        })
+                        .collect();
+                    out.push(format!("8 8 new {} - - {}", hex(p), ss.join("/")));
+                }
+            }
+        }
+    }
+}
+
+enum Search {
+    E(usize, Vec<u8>, Vec<u8>),
+    L(usize, u64, Vec<u8>),
+}
+
+pub fn exec(toks: &[&str]) -> Result<String, String> {
+    if toks.len() != 7 {
+        return Err("arity".into());
+    }
+    let ws: usize = parse(toks[0])?;
+    let wl: usize = parse(toks[1])?;
+    if ws == 0 && wl == 0 {
+        return Err("no matcher".into());
+    }
+    let p = unhex(toks[3])?;
+    if p.is_empty() {
+        return Err("empty pattern".into());
+    }
+    let m = p.len();
+    if ws != 0 && m > ws {
+        return Err("pattern longer than the single word (C09 checks the refusal)".into());
+    }
+    let amb = mu::parse_amb(toks[4])?;
+    let wild = unhex(toks[5])?;
+    let mut searches = vec![];
+    for s in split_ne(toks[6], '/') {
+        let f: Vec<&str> = s.split(':').collect();
+        if f.len() != 4 {
+            return Err("search".into());
+        }
+        let k: usize = parse(f[1])?;
+        if ws != 0 && k > 255 {
+            return Err("k > 255 with the single-word version".into());
+        }
+        let t = unhex(f[3])?;
+        match f[0] {
+            "E" => {
+                let script: Vec<u8> = f[2]
+                    .bytes()
+                    .map(|c| if c.is_ascii_digit() { Ok(c - b'0') } else { Err("script".to_string()) })
+                    .collect::<Result<_, _>>()?;
+                if script.iter().any(|&c| c > 4 && c != 9) {
+                    return Err("script digit".into());
+                }
+                searches.push(Search::E(k, script, t));
+            }
+            "L" => searches.push(Search::L(k, parse(f[2])?, t)),
+            _ => return Err("search kind".into()),
+        }
+    }
+    let mut simple = if ws != 0 { Some(mu::build(true, ws, toks[2], &p, &amb, &wild)?) } else { None };
+    let mut long = if wl != 0 { Some(mu::build(false, wl, toks[2], &p, &amb, &wild)?) } else { None };
+    let mut outs = vec![];
+    for s in &searches {
+        let mut diffs: Vec<String> = vec![];
+        match s {
+            Search::E(k, script, t) => {
+                let mut res: Vec<mu::EagerOut> = vec![];
+                if let Some(my) = simple.as_mut() {
+                    let r = my.eager(t, *k, m, script)?;
+                    let fae = my.fae(t, *k)?;
+                    let ends: Vec<(usize, usize)> = r.hits.iter().map(|h| (h.end - 1, h.dist)).collect();
+                    let ok = if r.stopped { fae.starts_with(&ends) } else { fae == ends };
+                    if !ok {
+                        diffs.push("eager-vs-find_all_end".into());
+                    }
+                    res.push(r);
+                }
+                if let Some(my) = long.as_mut() {
+                    let r = my.eager(t, *k, m, script)?;
+                    let fae = my.fae(t, *k)?;
+                    let ends: Vec<(usize, usize)> = r.hits.iter().map(|h| (h.end - 1, h.dist)).collect();
+                    let ok = if r.stopped { fae.starts_with(&ends) } else { fae == ends };
+                    if !ok {
+                        diffs.push("eager-vs-find_all_end".into());
+                    }
+                    res.push(r);
+                }
+                if res.len() == 2 && res[0].hits != res[1].hits {
+                    diffs.push("block-vs-single".into());
+                }
+                for r in &res {
+                    diffs.extend(r.diffs.iter().cloned());
+                }
+                let r = &res[0];
+                diffs.sort();
+                diffs.dedup();
+                outs.push(format!(
+                    "H={};X=-;stop={};q=0;u=0;{}",
+                    show_hits(&r.hits),
+                    r.stopped as u8,
+                    if diffs.is_empty() { "api:same".to_string() } else { format!("api:differs:{}", diffs.join("+")) }
+                ));
+            }
+            Search::L(k, seed, t) => {
+                let mut res: Vec<mu::LazyOut> = vec![];
+                if let Some(my) = simple.as_mut() {
+                    let r = my.lazy(t, *k, m, *seed, true)?;
+                    if my.fae(t, *k)? != r.ends {
+                        diffs.push("lazy-vs-find_all_end".into());
+                    }
+                    res.push(r);
+                }
+                if let Some(my) = long.as_mut() {
+                    let r = my.lazy(t, *k, m, *seed, false)?;
+                    if my.fae(t, *k)? != r.ends {
+                        diffs.push("lazy-vs-find_all_end".into());
+                    }
+                    res.push(r);
+                }
+                if res.len() == 2 && res[0].hits != res[1].hits {
+                    diffs.push("block-vs-single".into());
+                }
+                // eager against lazy on the same object
+                for my in [simple.as_mut(), long.as_mut()].into_iter().flatten() {
+                    let e = my.eager(t, *k, m, &[2])?;
+                    if e.hits != res[0].hits {
+                        diffs.push("eager-vs-lazy".into());
+                    }
+                }
+                for r in &res {
+                    diffs.extend(r.diffs.iter().cloned());
+                    let he: Vec<(usize, usize)> = r.hits.iter().map(|h| (h.end - 1, h.dist)).collect();
+                    if he != r.ends {
+                        diffs.push("lazy-hits-vs-iterated".into());
+                    }
+                }
+                let r = &res[0];
+                diffs.sort();
+                diffs.dedup();
+                outs.push(format!(
+                    "H={};X={};stop=0;q={};u={};{}",
+                    show_hits(&r.hits),
+                    show_hits(&r.extra),
+                    r.n_queries,
+                    r.n_unvisited,
+                    if diffs.is_empty() { "api:same".to_string() } else { format!("api:differs:{}", diffs.join("+")) }
+                ));
+            }
+        }
+    }
+    Ok(outs.join("/"))
 }
